@@ -1083,7 +1083,12 @@ def _parse_expression(expression, doc_dict, ignore_missing_keys=False):
         ignore_missing_keys: if True, missing keys evaluated by the expression are ignored silently
             if it is possible.
     """
-    return _Parser(doc_dict, ignore_missing_keys=ignore_missing_keys).parse(expression)
+    value = _Parser(doc_dict, ignore_missing_keys=ignore_missing_keys).parse(expression)
+    if isinstance(value, (dict, list)):
+        # A field path hands back the very object held by the document: give the caller its
+        # own copy, or a later in-place edit of one field shows up in the other.
+        value = copy.deepcopy(value)
+    return value
 
 
 filtering.register_parse_expression(_parse_expression)
